@@ -290,8 +290,10 @@ def _shape_case(rng, i):
                    ([rng.choice([["get", k], ["len"], ["in", k]])] if rng.random() < 0.5 else [])]
         om, kind = 1, rng.choice(["LRI", "LRU"])
     elif shape == 2:
-        threads = [[["get", 0]] + ([["get", 1]] if mx > 1 and rng.random() < 0.5 else []),
-                   [["set", 2, v()]] + ([["set", 3, v()]] if rng.random() < 0.5 else [])]
+        reader = rng.choice([[["get", 0]] + ([["get", 1]] if mx > 1 and rng.random() < 0.5 else []),
+                             [["in", 0], ["in", 2]], [["in", 2], ["in", 0]], [["len"]], [["in", 0], ["len"], ["in", 2]],
+                             [["getd", 0, 9], ["in", 2]]])
+        threads = [reader, [["set", 2, v()]] + ([["set", 3, v()]] if rng.random() < 0.5 else [])]
         om, kind = rng.choice([0, 0, 1]), rng.choice(["LRU", "LRI"])
     elif shape == 4:
         batch = rng.choice([["update", [[2, v()], [3, v()]], rng.choice(["list", "dict", "iter"])], ["ior", [[2, v()], [3, v()]], "dict"],
